@@ -72,8 +72,9 @@ def check(tier):
             for a in alpha:
                 if a != toks[i]:
                     texts.append(("sub:" + sname, "".join(toks[:i] + [a] + toks[i + 1:])))
-            for a in alpha:
-                texts.append(("ins:" + sname, "".join(toks[:i] + [a, " "] + toks[i:])))
+            if tier != "quick" or i % 3 == 0:
+                for a in alpha:
+                    texts.append(("ins:" + sname, "".join(toks[:i] + [a, " "] + toks[i:])))
         texts.append(("seed:" + sname, src))
     # dedupe
     seen = set()
